@@ -69,6 +69,19 @@ def traces(rng, n):
     for spec, c in classes.kit_classes():
         if classes.signature_typed(c):
             out.append([{"ev": "KitSignature", "name": c.__name__, "up": c.signature[0], "down": c.signature[1]}])
+    # CIDAR / EcoFlex: the declared part types chain into a transcription unit, composites span what they replace
+    import importlib
+    units = {"cidar": ["CIDARPromoter", "CIDARRibosomeBindingSite", "CIDARCodingSequence", "CIDARTerminator"],
+             "ecoflex": ["EcoFlexPromoter", "EcoFlexRBS", "EcoFlexCodingSequence", "EcoFlexTerminator"]}
+    comps = {"ecoflex": [("EcoFlexPromoterRBS", "EcoFlexPromoter", "EcoFlexRBS"), ("EcoFlexRBS", "EcoFlexTagLinker", "EcoFlexTag")]}
+    sg = lambda c: [list(c.signature[0].upper()), list(c.signature[1].upper())]   # noqa: E731
+    for kit, names in units.items():
+        mod = importlib.import_module("moclo.kits." + kit)
+        if all(hasattr(mod, nm) for nm in names):
+            out.append([{"ev": "KitUnit", "kit": kit, "sigs": [sg(getattr(mod, nm)) for nm in names]}])
+        for c, a, b in comps.get(kit, []):
+            if all(hasattr(mod, nm) for nm in (c, a, b)):
+                out.append([{"ev": "KitComposite", "kit": kit, "c": sg(getattr(mod, c)), "a": sg(getattr(mod, a)), "b": sg(getattr(mod, b))}])
     # the exception classes: documented ancestors, and every kind of instance the library raises can be printed
     from moclo import errors
     for name in sorted(dir(errors)):
